@@ -67,6 +67,15 @@ def gen_case(st, tier):
         cl = {"name": "D%d" % c, "impls": impls, "parent": None}
         if c > 0 and rp.random() < 0.12:
             cl["parent"] = rp.randrange(c)          # derived from an implementing class, not from the declaring one
+        if c < ncls - 1 and rp.random() < 0.1:
+            # a class that implements nothing but RE-DECLARES some registry points under their own names (an extended
+            # spec set): classes derived from it implement those names on a par with the direct sub-classes
+            cl = {"name": "E%d" % c, "impls": {}, "parent": None,
+                  "redeclares": dict((r["name"], rp.getrandbits(40)) for r in case["rps"] if rp.random() < 0.7)}
+        elif cl["parent"] is None and rp.random() < 0.5:
+            ext = [k for k, c0 in enumerate(case["classes"]) if c0.get("redeclares")]
+            if ext:
+                cl["parent"] = rp.choice(ext)
         case["classes"].append(cl)
     # evaluations in the middle of the history (a long-lived process: evaluate, load another spec package, evaluate again)
     case["eval_after"] = sorted(set(k for k in range(ncls - 1) if rp.random() < 0.25))
@@ -132,6 +141,10 @@ class SpecWorld(object):
         case = self.case
         c = case["classes"][ci]
         cb = {"__module__": w1.MODNAME}
+        for rn, h in sorted((c.get("redeclares") or {}).items()):
+            base_rp = [r for r in case["rps"] if r["name"] == rn]
+            if base_rp:
+                cb[rn] = w1.RegistryPoint(rn, h, multi_output=base_rp[0]["multi"])
         for rn in sorted(c["impls"]):
             im = c["impls"][rn]
             tag = "%s.%s" % (c["name"], rn)
@@ -219,8 +232,18 @@ def expected(case, upto=None):
         rn = r["name"]
         # a class derived from an implementing class (not from the declaring one) registers nothing: its datasources are
         # not implementations of the spec (the code wires direct sub-classes only) and must never contribute
-        regs = [(ci, c["name"], c["impls"][rn]) for ci, c in enumerate(classes) if rn in c["impls"] and c.get("parent") is None]
-        second = ["%s.%s" % (c["name"], rn) for c in classes if rn in c["impls"] and c.get("parent") is not None]
+        def registered(c):
+            # the metaclass looks a name up in the registry of the DIRECT base only: the declaring class, or an
+            # extended spec set (itself directly below the declaring class) that re-declares the name
+            pa = c.get("parent")
+            if pa is None:
+                return True
+            if pa >= len(classes):
+                return False
+            pc = classes[pa]
+            return pc.get("parent") is None and rn in (pc.get("redeclares") or {})
+        regs = [(ci, c["name"], c["impls"][rn]) for ci, c in enumerate(classes) if rn in c["impls"] and registered(c)]
+        second = ["%s.%s" % (c["name"], rn) for c in classes if rn in c["impls"] and not registered(c)]
         cands = [(ci, cn, im) for ci, cn, im in regs if a in eff(ci, im)]
         others = [(ci, cn, im) for ci, cn, im in regs if a not in eff(ci, im)]
         e = {"must_not_run": ["%s.%s" % (cn, rn) for ci, cn, im in cands[:-1]] + ["%s.%s" % (cn, rn) for ci, cn, im in others] + second,
